@@ -40,10 +40,8 @@ func forall(lo, hi int, f func(int) bool) bool {
 //@   ensures len(cl.checkpoints[old(len(cl.checkpoints))].WALs) == 1
 //@   ensures ckptIndexed(cl.checkpoints[old(len(cl.checkpoints))])
 //@   loop 0:
-//@     invariant forall(func(s string) bool { return has(listed, s) ==> inFiles(fileNames, s) })
 //@     invariant forall(0, idx_, func(i int) bool { return forall(0, len(ll.levels[i].tables.l), func(j int) bool { return has(tableURISet, sst.ghostTableURI(ll.levels[i].tables.l[j])) }) })
 //@   loop 1:
-//@     invariant forall(func(s string) bool { return has(listed, s) ==> inFiles(fileNames, s) })
 //@     invariant forall(0, idx0_, func(i int) bool { return forall(0, len(ll.levels[i].tables.l), func(j int) bool { return has(tableURISet, sst.ghostTableURI(ll.levels[i].tables.l[j])) }) })
 //@     invariant forall(0, idx_, func(j int) bool { return has(tableURISet, sst.ghostTableURI(level.tables.l[j])) })
 
@@ -53,7 +51,6 @@ func forall(lo, hi int, f func(int) bool) bool {
 //@   modifies nothing
 //@   ensures result == exists(0, len(cl.checkpoints), func(j int) bool { return has(cl.checkpoints[j].tableURIset, uri) })
 //@   loop 0:
-//@     invariant forall(func(s string) bool { return has(listed, s) ==> inFiles(fileNames, s) })
 //@     invariant forall(0, idx_, func(j int) bool { return !has(cl.checkpoints[j].tableURIset, uri) })
 
 // RetainOnly keeps exactly the checkpoints whose id is listed, in order; the
